@@ -329,7 +329,7 @@ for pid in sorted(seeded):
         w(f"| {n} | {m['breaks'][:330]} | {m['checks']['detected_by'][:520]} |")
 nmiss = sum(1 for pid in seeded for (n, m) in seeded[pid] if 'MISSED' in m['checks']['detected_by'])
 ntot = sum(len(v) for v in seeded.values())
-w(f"\n{ntot} changes, {nmiss} of them first missed. The pattern of the misses is instructive: almost every one needed a *dimension the model did not have yet* (forward goto, statement headers, alias-typed operands, a stand-alone iota constant, force-imports, recursive types, per-package big-number types, multi-value call arguments, function values, type-as-parameter calls, a second write, enumerators on rangeable receivers) - none was missed because a comparison was too weak. Extending the specification by that dimension repeatedly exposed further genuine defects of the pinned tree (C06: KF-C06-2/3; C07: two fixes; C02: KF-C02-4; C11: five fixes).\n")
+w(f"\n{ntot} changes, {nmiss} of them first missed. The pattern of the misses is instructive: almost every one needed a *dimension the model did not have yet* (forward goto, statement headers, alias-typed operands, a stand-alone iota constant, force-imports, recursive types, per-package big-number types, multi-value call arguments, function values, type-as-parameter calls, a second write, enumerators on rangeable receivers) - none was missed because a comparison was too weak. Extending the specification by that dimension repeatedly exposed further genuine defects of the pinned tree (C06: KF-C06-2/3; C07: two fixes; C02: the header-parentheses fix aeb3ba7; C11: five fixes).\n")
 
 w("""
 ---------------------------------------------------------------------------------------------------
